@@ -26,8 +26,8 @@ CONSTANTS IterChoices,  \* set of <<iterations, tolerance (scaled)>>
 
 VARIABLES val, prev, passes, todo, lastN
 ivars == <<inp, built, val, prev, passes, todo, lastN, ret, act, cache, edges, changed>>
-unused == <<cache, edges, changed>>     \* Engine's variables that this mode does not use
-iview == <<inp, built, val, prev, passes, todo>>
+unused == <<cache, edges>>              \* Engine's variables that this mode does not use
+iview == <<inp, built, val, prev, passes, todo, changed>>
 
 \* reachable nodes without assuming acyclicity
 RECURSIVE ReachFrom(_, _)
@@ -108,8 +108,12 @@ EvalIter(n, ch) ==
       B == Reach(n) \ built
       \* constructing a cell with a value puts it on the todo list of the
       \* running pass (its previous value is None)
-      newtodo == {x \in B \cap Inputs : inp[x] # Blank}
-      s0 == [val |-> val, prev |-> prev, wip |-> {}, computed |-> {}, todo |-> {},
+      \* with stored results (and no value changed yet) a new formula cell starts
+      \* with its stored result, which also counts as "a cell with a value"
+      storedNew == IF Src = "Stored" /\ ~changed THEN B \cap Formulas ELSE {}
+      val0 == [x \in Tracked |-> IF x \in storedNew THEN Stored(x) ELSE val[x]]
+      newtodo == {x \in B \cap Inputs : inp[x] # Blank} \cup storedNew
+      s0 == [val |-> val0, prev |-> prev, wip |-> {}, computed |-> {}, todo |-> {},
              rv |-> [r \in Ranges |-> NoneV], newtodo |-> newtodo]
       \* new ranges / unbounded references are evaluated when built, then n
       roots == SetToSeq(B \cap (Ranges \cup Aliases)) \o <<n>>
@@ -122,7 +126,7 @@ EvalIter(n, ch) ==
       /\ lastN' = N
       /\ ret' = IF n \in Tracked THEN r.s.val[n] ELSE IF n \in Ranges THEN r.s.rv[n] ELSE inp[n]
       /\ act' = [op |-> "evaluate", n |-> n, iterations |-> N, tol |-> tolS]
-      /\ UNCHANGED <<inp, unused>>
+      /\ UNCHANGED <<inp, unused, changed>>
 
 \* no reset in this mode; the value setter puts the cell on the tracker's
 \* todo list (its previous value is None) unless it is emptied
@@ -130,6 +134,7 @@ ISetValue(a, v) ==
   /\ a \in built
   /\ inp' = [inp EXCEPT ![a] = v]
   /\ todo' = IF inp[a] # v /\ v # Blank THEN todo \cup {a} ELSE todo
+  /\ changed' = IF inp[a] # v THEN TRUE ELSE changed
   /\ ret' = NoneV
   /\ act' = [op |-> "set_value", n |-> a, v |-> v]
   /\ UNCHANGED <<built, val, prev, passes, lastN, unused>>
@@ -158,13 +163,13 @@ Depth3 == TLCGet("level") <= 3
 Depth4 == TLCGet("level") <= 4
 Depth5 == TLCGet("level") <= 5
 
-IStateJson(i, b, v, pv, k, td) ==
-  [inp |-> i, built |-> b, val |-> [x \in b \cap Tracked |-> v[x]],
+IStateJson(i, b, v, pv, k, td, ch) ==
+  [changed |-> ch, inp |-> i, built |-> b, val |-> [x \in b \cap Tracked |-> v[x]],
    prev |-> [x \in b \cap Tracked |-> pv[x]], passes |-> k, todo |-> td]
 IPrintInit == act.op = "init" =>
-  PrintT(ToJson([init |-> IStateJson(inp, built, val, prev, passes, todo)]))
+  PrintT(ToJson([init |-> IStateJson(inp, built, val, prev, passes, todo, changed)]))
 IPrintEdge ==
-  PrintT(ToJson([from |-> IStateJson(inp, built, val, prev, passes, todo),
+  PrintT(ToJson([from |-> IStateJson(inp, built, val, prev, passes, todo, changed),
                  act  |-> act', ret |-> ret',
-                 to   |-> IStateJson(inp', built', val', prev', passes', todo')]))
+                 to   |-> IStateJson(inp', built', val', prev', passes', todo', changed')]))
 =============================================================================
